@@ -913,8 +913,9 @@ func main() {
 			emit(fmt.Sprintf("xr %d %s %s", fr, csv(ulens), csv(asked)), impl)
 		}
 		// --- xrcut: framed reference streams that END EARLY (the source has only the first bytes): after m complete blocks
-		// the cut falls on the frame boundary (kind 0), inside the 4-byte length (kind 1..3 = bytes of it present) or inside
-		// the block (kind 4); the Read return values must be the model's and the data a prefix of the payload
+		// the cut falls on the frame boundary (kind 0), inside the 4-byte length (kind 1..3 = bytes of it present), right
+		// after it (kind 4) or inside the block (kind 5); the Read return values must be the model's and the data a prefix
+		// of the payload
 		for i := 0; i < 24; i++ {
 			nb := 1 + r.Intn(4)
 			var frames [][]byte
@@ -931,7 +932,7 @@ func main() {
 				whole = append(whole, p...)
 			}
 			m := r.Intn(nb)
-			kind := r.Intn(5)
+			kind := r.Intn(6)
 			stream := []byte{0x82, 'S', 'N', 'A', 'P', 'P', 'Y', 0, 0, 0, 0, 1, 0, 0, 0, 1}
 			for j := 0; j < m; j++ {
 				stream = append(stream, frames[j]...)
@@ -939,8 +940,10 @@ func main() {
 			switch {
 			case kind >= 1 && kind <= 3:
 				stream = append(stream, frames[m][:kind]...)
-			case kind == 4:
-				stream = append(stream, frames[m][:4+r.Intn(len(frames[m])-4)]...)
+			case kind == 4: // the length field and not one byte of the block
+				stream = append(stream, frames[m][:4]...)
+			case kind == 5: // the length field and a strict, non-empty part of the block
+				stream = append(stream, frames[m][:5+r.Intn(len(frames[m])-5)]...)
 			}
 			next := readSizes(r)
 			var asked []int
